@@ -141,6 +141,22 @@ var c08Pure = core.Mon(c08, "repeat-and-interleave", func(w *core.W, c *PureCase
 	firstVal, first := evalTreeKeep(sc, c.Data)
 	f0 := fieldsOf(sc)
 	w.Count("field_analyses")
+	// a formula without now / toDay does not read the clock: the same outcome when the wall clock says 2038 or 1930
+	// (virtual clock of the harness build, see tools/mkoverlay.py)
+	if !clock && obs.ClockAvailable() {
+		for _, at := range []time.Time{time.Unix(1<<31+12345, 5), time.Unix(-1262304000, 0), time.Unix(4102444800+86399, 999999999)} {
+			var o string
+			obs.WithClock(at, func() { o = evalTree(sc, c.Data) })
+			w.Count("evaluations_under_another_clock")
+			if o != first {
+				w.Violation("repeat-and-interleave", "C08/depends-on-the-clock", c, clipS(first, 300), clipS(o, 300),
+					fmt.Sprintf("%q has no clock builtin, yet it evaluates differently when the wall clock reads %s", clipS(c.Src, 120), at.UTC().Format(time.RFC3339)))
+				return
+			}
+		}
+	} else if !clock {
+		w.Skip("no-clock-overlay")
+	}
 	if o2, f2 := evalTree(sc2, c.Data), fieldsOf(sc2); !clock && (o2 != first || f2 != f0) {
 		w.Violation("repeat-and-interleave", "C08/tree-depends-on-callers-buffer", c, clipS(o2+" fields "+f2, 300), clipS(first+" fields "+f0, 300),
 			fmt.Sprintf("the tree parsed from a buffer the host re-used afterwards evaluates/analyses differently from the tree of the same text %q parsed from a private buffer", clipS(c.Src, 120)))
@@ -408,6 +424,7 @@ func runC08(w *core.W) {
 	}
 	// literal spellings that the scanner has to rewrite (escapes, digit separators), and spread calls over data containers
 	pool = append(pool, hostileLiteralPool...)
+	pool = append(pool, "date(0, 3, 5)", "year(date(0, 1, 1))", "date(n0, 1, 1)", "timeFormat(date(0, 2, 29), '2006-01-02')", "addDate(t0, 0, 0, 0)", "year(t0) - year(date(1, 1, 1))", "date(0, 0, 0)", "weekDay(date(2024, 2, 29))")
 	for _, f := range append(append([]string{}, stdFuncs...), safeBuiltins()...) {
 		for _, cont := range []string{"arr", "strs", "ms", "x0", "x1", "odd"} {
 			pool = append(pool, f+"("+cont+"...)", f+"(1, "+cont+"...)", "$v = "+cont+", "+f+"($v...)")
